@@ -22,6 +22,7 @@ from repid.data._key import RoutingKey  # noqa: E402
 from repid.data._parameters import Parameters  # noqa: E402
 
 KINDS = ("memory", "redis", "rabbit")
+F24 = "F24-redis-finish-leaves-fetch-in-flight"
 
 
 def _mk(kind: str):
@@ -158,9 +159,14 @@ def part_c01(res: Result) -> None:
         if o is not None:
             want = {"c1": ["simple"], "c2": ["simple"], "c3": ["simple"], "later": ["simple"]}
             if o["first"] != "c0" or o["places"] != want:
+                # Redis, known finding F24: finish() cancels the consumer's background fetch; the one message that fetch had just
+                # taken (never handed to the caller) stays marked in flight
+                off = [k for k in want if o["places"].get(k) != want[k]]
+                f24 = (kind == "redis" and o["first"] == "c0" and set(o["places"]) == set(want) and len(off) == 1
+                       and off[0] != "later" and o["places"][off[0]] == ["processing"])
                 res.bad("impl", "after the caller stopped iterating Queue.get_messages() (generator closed) the consumer's prefetched "
                                 "messages were not given back, or it kept taking messages", case={"label": f"queue-api/closed-iteration/{kind}"},
-                        observed=o, expected={"first": "c0", "places": want})
+                        observed=o, expected={"first": "c0", "places": want}, finding=F24 if f24 else None)
     o = _run(held_when_cancelled, res, "C01", "queue-api/held-when-cancelled/memory")
     res.dist["queue-api:held-when-cancelled"] += 1
     res.note(("queue-api", "held-when-cancelled"))
